@@ -51,6 +51,7 @@ type Contract struct {
 	NoSafety bool
 	Lets     []Clause // named abbreviations: label = expr (macro)
 	Splits   []Clause // case-split conditions (entry state) applied to every postcondition
+	Cases    []Clause // list of cases (entry state); each postcondition is proved per case, plus exhaustiveness
 	File     string
 	Line     int
 }
@@ -195,6 +196,10 @@ func ParseContracts(files map[string]string) (*ContractSet, error) {
 					k, v, _ := strings.Cut(kv, "=")
 					cur.Opts[k] = v
 				}
+			case "cases":
+				// list of cases separated by ';' (split when used, so continuation lines work)
+				cur.Cases = append(cur.Cases, Clause{Label: "case", Expr: rest, Line: ln, File: file})
+				last = &cur.Cases[len(cur.Cases)-1].Expr
 			case "split":
 				for _, m := range splitTop(rest, ',') {
 					if m = strings.TrimSpace(m); m != "" {
